@@ -33,6 +33,7 @@ inductive Op where
   | send (r : SendReq)
   | monitor (c : Nat)    -- watch loop stored a confirmed nonce
   | restart
+  | cancel               -- CancelTx of an earlier transaction: a replacement reusing that nonce is submitted
   deriving Repr, DecidableEq
 
 /-- observable events (what reaches the chain node and what the caller is told) -/
@@ -41,6 +42,7 @@ inductive Ev where
   | failed (pending : Option Nat)     -- the request returned an error
   | mon (c : Nat)
   | restarted
+  | cancelled
   deriving Repr, DecidableEq
 
 /-- `getNonce` after the pending answer `p` arrived, as a function of the counter -/
@@ -62,6 +64,7 @@ def step (s : St) : Op → St × Ev
       else ({ s' with nonce := n + 1 }, .sent n p)
   | .monitor c => ({ s with confirmed := c }, .mon c)
   | .restart => (init, .restarted)
+  | .cancel => (s, .cancelled)      -- CancelTx touches neither the counter nor the monitor's word
 
 def run : St → List Op → List Ev
   | _, [] => []
